@@ -6,7 +6,7 @@ coqc) and independent Python oracles: integers of every width around every bound
 (ASCII, escapes, Latin-1, BMP, astral), include_bytes from several working directories."""
 import data_engine
 
-GEN_UNITS = ['Encoders', 'Criteria', 'Sizes']          # Model/Passes.v (the pass model the theorems are about) is built on them
+GEN_UNITS = ['Encoders', 'Criteria', 'Sizes', 'Effects']          # Model/Passes.v (the pass model the theorems are about) is built on them
 EXES = []                                     # the Spec oracle is evaluated by coqc directly (Spec/Data.v, Spec/Utf8.v)
 ASSUMPTIONS = [
     'IShort / IPack items carry the integer that resolve_immediates computed (FInt v); sequence elements are tokens that int(tok, 0) reads',
